@@ -2,6 +2,7 @@
 #define G_MC_EXPR verif_gk
 #define CONTRACT_MEMCMP_RECORDING
 #define CONTRACT_MEMCMP_SEQ
+#define CONTRACT_SECURE_MEMCMP_RECORDING
 #define CONTRACT_MEMXOR_RECORDING
 #include <gmssl/sm4.h>
 #define GCM_KEY_T SM4_KEY
@@ -56,7 +57,7 @@ static void gcm_tamper_sweep(const SM4_KEY *key, const uint8_t *iv, size_t ivlen
 }
 #endif
 
-//@job name=sm4_gcm_decrypt props=C05,C04 enforce=sm4_gcm_decrypt replace=sm4_encrypt,ghash,sm4_ctr32_encrypt,gmssl_memxor,memcmp,memcpy unwindset=ctr32_incr.0:5 timeout=600
+//@job name=sm4_gcm_decrypt props=C05,C04 enforce=sm4_gcm_decrypt replace=sm4_encrypt,ghash,sm4_ctr32_encrypt,gmssl_memxor,memcmp,gmssl_secure_memcmp,memcpy unwindset=ctr32_incr.0:5 timeout=600
 void h_sm4_gcm_decrypt(void)
 {
 	GCM_SETUP
